@@ -209,16 +209,33 @@ def generic_case(rng, chk, it):
 # ----------------------------------------------------------------------------------------------
 # one case: correspondence + oracles
 
-def run_case(chk, drv, case, stats):
-    try:
-        return _run_case(chk, drv, case, stats)
-    except (IndexError, ValueError, AssertionError, ZeroDivisionError, FloatingPointError, TypeError, AttributeError) as e:
+class Guard:
+    """an exception raised inside /repo's code on a valid input is a failure of the property, not a harness error"""
+    KINDS = (IndexError, ValueError, AssertionError, ZeroDivisionError, FloatingPointError, TypeError, AttributeError, KeyError)
+
+    def __init__(self, chk, sig, what, case):
+        self.chk, self.sig, self.what, self.case = chk, sig, what, case
+        self.raised = False
+
+    def __enter__(self):
+        return self
+
+    def __exit__(self, et, e, tb):
+        if et is None or not issubclass(et, self.KINDS):
+            return False
         import traceback
-        tb = traceback.extract_tb(e.__traceback__)
-        if not any('pygyro' in fr_.filename for fr_ in tb):
-            raise
-        chk.fail('C10:raises', 'constructing FluxSurfaceAdvection or calling step raised %s: %s' % (type(e).__name__, str(e)[:120]),
-                 case, expected='a result', actual=['%s:%d' % (fr_.filename.split('/')[-1], fr_.lineno) for fr_ in tb[-3:]])
+        fr_ = traceback.extract_tb(tb)
+        if not any('pygyro' in x.filename for x in fr_):
+            return False
+        self.raised = True
+        self.chk.fail(self.sig, '%s raised %s: %s' % (self.what, et.__name__, str(e)[:120]), self.case, expected='a result',
+                      actual=['%s:%d' % (x.filename.split('/')[-1], x.lineno) for x in fr_[-3:]])
+        return True
+
+
+def run_case(chk, drv, case, stats):
+    with Guard(chk, 'C10:raises', 'constructing FluxSurfaceAdvection or calling step', case):
+        return _run_case(chk, drv, case, stats)
 
 
 def _run_case(chk, drv, case, stats):
@@ -234,6 +251,9 @@ def _run_case(chk, drv, case, stats):
     f0 = rng.uniform(-1, 1, size=(nq, nz)) * rng.choice([1.0, 1e3, 1e-3])
     f = f0.copy()
     fa.step(f, cIdx, rIdx)
+    if not np.isfinite(f).all():
+        chk.fail('C10:nonfinite', 'step produced nan/inf from finite data', tag, actual=int((~np.isfinite(f)).sum()))
+        return
 
     # ---------------- model
     setup = drv.call({'op': 'flux_setup', 'z': common.rat(z1), 'dz': common.rat(dz), 'zDist': common.rat(zDist), 'nL': nL})
@@ -432,6 +452,8 @@ def run(chk):
             B['fa'].step(f, cIdx, rIdx)
             before = len(chk.failures)
             tag = dict(case, rIdx=rIdx, cIdx=cIdx)
+            if not np.isfinite(f).all():
+                return {'signature': 'C10:nonfinite', 'what': 'step produced nan/inf from finite data', 'case': tag}
             oracle_formula(chk, case, B, tag, rIdx, cIdx, f0, f) and oracle_identities(chk, case, B, tag, rIdx, cIdx, f0, f)
             if len(chk.failures) > before:
                 return chk.failures.pop(before)
